@@ -108,8 +108,10 @@ fn tree_cases(ctx: &mut Ctx) {
         let name = EXACT[k % EXACT.len()];
         // large magnitudes only for the tanh rule, whose saturation (clamp of x/2 at 18 / 9) the reference reproduces; the phi rule saturates
         // differently (1e-30 guard; in f32 tanh rounds to 1 beyond |x| ~ 18), so it stays where no saturation can act
-        let big = name.contains("Tanh") && rng.chance(1, 3);
-        let (lo, hi) = if big { if name.ends_with("32") { (4.0, 15.0) } else { (8.0, 30.0) } } else if name == "Phif32" || name == "HLPhif32" { (0.25, 3.0) } else { (0.25, 6.0) };
+        // (in f32 the rounding of tanh next to 1 moves a saturated message by up to ~0.7, more than any margin: the f32 names stay below every
+        // saturation, |LLR| <= 3, totals <= 12)
+        let big = name.contains("Tanhf64") && rng.chance(1, 3);
+        let (lo, hi) = if big { (8.0, 30.0) } else if name.ends_with("32") { (0.25, 3.0) } else { (0.25, 6.0) };
         let llrs: Vec<f64> = (0..cols)
             .map(|_| {
                 let m = lo + (hi - lo) * rng.f64_unit();
